@@ -24,6 +24,9 @@ func Order(_ string, _ []string) []string { return nil }
 // only called from code instrumented by the simulation harness.
 func Acquire() {}
 
+// SimLock is only called from code instrumented by the simulation harness.
+func SimLock(_ any, _ bool, _ string) bool { return false }
+
 // Release is the counterpart of Acquire.
 func Release(_ string) {}
 
